@@ -45,6 +45,19 @@ def path_osc(ctx, job, box):
         # an embedded ESC x pair (x is not a backslash)
         ctx.assume(pay[0] != ord('\\'))
         payload = [ESC] + pay
+    first = job.params.get('first')
+    pre_chars = []
+    if first is not None:
+        # an earlier OSC string (any code, its own payload) must leave nothing behind
+        code0 = ctx.bvvar('code0', 32)
+        ctx.assume(valid_scalar(code0))
+        for v in (ord('R'), ord('P'), ESC, BEL, ST):
+            ctx.assume(code0 != v)
+        p0 = ctx.bvvar('q0', 32)
+        ctx.assume(valid_scalar(p0))
+        for v in (BEL, ST, ESC):
+            ctx.assume(p0 != v)
+        pre_chars = [0x9d, code0, ord(';'), p0, ord('y'), BEL]
     chars = ([ESC, ord(']')] if intro == 'esc' else [0x9d]) + [code]
     with_semicolon = job.params.get('semicolon', True)
     if with_semicolon:
@@ -54,6 +67,16 @@ def path_osc(ctx, job, box):
     chars += [ord('Z')]      # a character after the sequence: must be drawn, i.e. the string really ended
     chunks = [chars] if cut is None else [chars[:cut], chars[cut:]]
     outcome, msg = 'ok', None
+    if pre_chars:
+        try:
+            ses.feed(Str(tuple(pre_chars)))
+        except Panic as e:
+            outcome, msg = 'panic', str(e)
+        # the property is judged for the second string, relative to the state the first one left
+        pre = ses.screen
+        chunks_all = [pre_chars] + chunks
+    else:
+        chunks_all = chunks
     try:
         for ch in chunks:
             ses.feed(Str(tuple(ch)))
@@ -61,12 +84,14 @@ def path_osc(ctx, job, box):
         outcome, msg = 'panic', str(e)
     post = ses.screen
 
+    pre0 = ss.value
+
     def jsteps(model):
         ev = Ev(model)
-        return [['feed_cps', [ev.int(c) for c in ch]] for ch in chunks]
+        return [['feed_cps', [ev.int(c) for c in ch]] for ch in chunks_all]
 
     def scenario(model):
-        st = snapshot(eng, L, pre, model)
+        st = snapshot(eng, L, pre0, model)
         sc = {'cols': 3, 'lines': 2, 'state': st, 'steps': jsteps(model)}
         if outcome == 'panic':
             return sc, {'ok': False, 'panic': msg, 'out': []}
@@ -111,6 +136,9 @@ def jobs(tier):
             js.append(Job('%s/%s/escpair' % (intro, term.replace('\\', 'bs')), path_osc, intro=intro, term=term, npay=2,
                           shape='escpair', prop=PROP))
         js.append(Job('%s/bel/nosemicolon' % intro, path_osc, intro=intro, term='bel', npay=0, semicolon=False, prop=PROP))
+    # two OSC strings in a row: nothing of the first may leak into the second
+    for intro in ('esc', 'c1'):
+        js.append(Job('pair/%s' % intro, path_osc, intro=intro, term='bel', npay=2, first=True, prop=PROP))
     # arbitrary chunking of one representative
     for cut in range(1, 8):
         js.append(Job('cut%d' % cut, path_osc, intro='esc', term='esc\\', npay=2, cut=cut, prop=PROP))
